@@ -30,8 +30,13 @@ enum Item {
     Recurse,
     /// the same `ret` executed twice in a row with the same target
     RetSelfTwice,
+    /// `jmp [rip+0]` through an 8-byte slot that follows it (the target is what the slot HOLDS)
+    JmpMem,
+    /// `call [rip+2]; jmp +8; slot`: the callee is the code behind the slot, its `ret` comes back
+    /// to the `jmp` that hops over the slot
+    CallMem,
 }
-const ITEMS: [Item; 14] = [
+const ITEMS: [Item; 16] = [
     Item::JmpNext,
     Item::Loop,
     Item::JeTaken,
@@ -46,6 +51,8 @@ const ITEMS: [Item; 14] = [
     Item::IndirectTwice,
     Item::Recurse,
     Item::RetSelfTwice,
+    Item::JmpMem,
+    Item::CallMem,
 ];
 
 const BASE: u64 = 0x40_1000;
@@ -64,6 +71,8 @@ fn item_len(i: Item) -> usize {
         Item::IndirectTwice => 20,
         Item::Recurse => 18,
         Item::RetSelfTwice => 11,
+        Item::JmpMem => 14,
+        Item::CallMem => 16,
     }
 }
 
@@ -97,6 +106,14 @@ fn assemble(p: &[Item]) -> Vec<u8> {
                 out.extend_from_slice(&[0xFF, 0xE0, 0x90]); // jmp rax; (nop, skipped)
             }
             Item::Int3 => out.push(0xCC),
+            Item::JmpMem => {
+                out.extend_from_slice(&[0xFF, 0x25, 0, 0, 0, 0]); // jmp [rip+0]
+                out.extend_from_slice(&next.to_le_bytes());
+            }
+            Item::CallMem => {
+                out.extend_from_slice(&[0xFF, 0x15, 0x02, 0, 0, 0, 0xEB, 0x08]); // call [rip+2]; jmp +8
+                out.extend_from_slice(&next.to_le_bytes());
+            }
             // call +2 ; jmp +1 ; ret   (a real call/return pair: call the ret, come back, skip it)
             Item::CallOverRet => out.extend_from_slice(&[0xE8, 0x02, 0, 0, 0, 0xEB, 0x01, 0xC3]),
             Item::IndirectTwice => {
@@ -234,14 +251,17 @@ fn run_program(prog: &[Item], code: &[u8], tiny_stack: bool) -> (Vec<(String, St
                 }
             }
             FlowControl::Call => expect = Some((TraceKind::Call, i.near_branch_target())),
-            FlowControl::IndirectCall => {
+            FlowControl::IndirectCall | FlowControl::IndirectBranch => {
+                let kind = if i.flow_control() == FlowControl::IndirectCall { TraceKind::Call } else { TraceKind::Jump };
                 if i.op0_kind() == OpKind::Register {
-                    expect = Some((TraceKind::Call, rax));
-                }
-            }
-            FlowControl::IndirectBranch => {
-                if i.op0_kind() == OpKind::Register {
-                    expect = Some((TraceKind::Jump, rax));
+                    expect = Some((kind, rax));
+                } else if i.op0_kind() == OpKind::Memory && i.memory_base() == iced_x86::Register::RIP {
+                    // the pointer slot lies in the program itself
+                    let slot = i.memory_displacement64();
+                    if slot >= BASE && slot + 8 <= end {
+                        let o = (slot - BASE) as usize;
+                        expect = Some((kind, u64::from_le_bytes(padded[o..o + 8].try_into().unwrap())));
+                    }
                 }
             }
             FlowControl::Return => {
@@ -487,7 +507,7 @@ pub fn run(tier: Tier) -> i32 {
         run.findings.merge(f);
         run.cov("devlike_profile_run", summary);
     }
-    enum_evidence(&mut run, &out, "one case = (a) one of the 34 conditional-jump forms (16 conditions x rel8/rel32, JRCXZ, JECXZ) under one of 64 flag states and 3 RCX values, or (b) a program of <= L items over {jmp next, dec/jne countdown loop, je taken, je untaken, call next, ret, push addr+ret (unmatched return), mov+call rax, mov+jmp rax, int3, call/ret pair, one indirect jump taken twice with two targets, direct self-recursion, one ret executed twice with the same target}; every program also on a 16-byte stack when shorter than L (nested calls and pushes then fault: a failed transfer must leave no trace entry and no frame); after every step the structured trace and call stack are compared with an independent tracer (iced decode, condition evaluated on the flags, targets from its own operand evaluation, run-length collapse), and trace()/call_stack()/to_string() are rendered under catch_unwind and an allocation guard; states = distinct programs; distinct_nontrivial = distinct trace histories");
+    enum_evidence(&mut run, &out, "one case = (a) one of the 34 conditional-jump forms (16 conditions x rel8/rel32, JRCXZ, JECXZ) under one of 64 flag states and 3 RCX values, or (b) a program of <= L items over {jmp next, dec/jne countdown loop, je taken, je untaken, call next, ret, push addr+ret (unmatched return), mov+call rax, mov+jmp rax, int3, call/ret pair, one indirect jump taken twice with two targets, `jmp [rip+0]` and `call [rip+2]` through a slot in the code, direct self-recursion, one ret executed twice with the same target}; every program also on a 16-byte stack when shorter than L (nested calls and pushes then fault: a failed transfer must leave no trace entry and no frame); after every step the structured trace and call stack are compared with an independent tracer (iced decode, condition evaluated on the flags, targets from its own operand evaluation, run-length collapse), and trace()/call_stack()/to_string() are rendered under catch_unwind and an allocation guard; states = distinct programs; distinct_nontrivial = distinct trace histories");
     run.cov("program_max_length", json!(maxlen));
     run.guard("cases", out.cases >= 10_000 || out.capped, format!("{} programs", out.cases));
     run.guard("traces-distinct", out.distinct > 100, format!("{} distinct trace histories", out.distinct));
